@@ -165,6 +165,12 @@ class Closure(object):
         self.env = env
 
 
+class SuperRef(object):
+    def __init__(self, obj, after_cls):
+        self.obj = obj
+        self.after_cls = after_cls
+
+
 class PtrTo(object):
     """C pointer to a non-array value (e.g. vector[void*]*): p[0] is the value"""
 
